@@ -39,3 +39,8 @@ CHECKS['C16'] = dict(
     text='Generated CSS3 selectors (5k quick, 400k thorough) x 4 spellings, stand-alone and attached to a sheet with namespaces: specificity and the comment-free structure of selectorText must equal values computed from the model; serialisation must be a fixpoint; list histories against a list model with invalid members. Exploration.',
     note='Trusted: the generator-side specificity/structure computation, cssutils tokenizer as normaliser; functional pseudo-classes inside :not() excluded (finding F16-1); names without characters needing escapes.',
 )
+CHECKS['C02'] = dict(
+    technique='property-based testing (Hypothesis): grammar-based abstract stylesheet generator, absolute oracle (projection computed from the model) + metamorphic oracle (every spelling of one meaning gives the same DOM projection) + option differentials',
+    text='Generated abstract stylesheets (4k quick, 200k thorough) rendered canonically and in 3 random spellings; the DOM projection through public accessors must equal the projection computed from the model, be identical across spellings, lose exactly the comments with parseComments=False and nothing with validate=False. Exploration.',
+    note='Trusted: my renderer and expected-projection code (the absolute oracle compares two independent paths from the model), cssutils tokenizer/helper functions as text normalisers; numbers and media lists are generated canonical (C18/C17 own their normalisation); comments in calc() and in margin boxes are listed findings.',
+)
